@@ -37,7 +37,7 @@ def std_project(scroot, name="p", rng=None, rich_outputs=False, disable_git=True
     return realrun.Project(scroot, tasks, scripts, name=name, disable_git=disable_git)
 
 
-def run_history(pr, rng, nsteps, base_scripts=None):
+def run_history(pr, rng, nsteps, base_scripts=None, clock_base=None):
     """random real run history: successes, failures (unrecorded leftovers), --again"""
     import json
     base = json.loads(json.dumps(base_scripts or pr.scripts))
@@ -53,7 +53,7 @@ def run_history(pr, rng, nsteps, base_scripts=None):
         pr.write_scn()
         tgt = rng.choice(["//:g", "//:g", "//:dd", "//a/b:e3", "//:e1", "//c-d:e4", "//:k"])
         argv = ["run", tgt] + (["--again"] if rng.random() < 0.5 else []) + (["-j", "3"] if rng.random() < 0.5 else [])
-        r = pr.cond(argv, timeout=120)
+        r = pr.cond(argv, timeout=120, **({"clock": [clock_base + 50 * i]} if clock_base is not None else {}))
         log.append({"argv": argv, "fail": fail, "exit": r.code})
     pr.scripts = base
     pr.write_scn()
